@@ -53,8 +53,27 @@ def tables(draw, max_cols=3):
     return {"rows": rows, "cols": cols}
 
 
+def sanitize_params(cmd, params):
+    """Remove deliberately faulty parameter tables (duplicate raw values, unequal lengths, equal thresholds)."""
+    p = dict(params)
+    for vals in ("NormalValues", "FuzzyValues"):
+        for keys in ("RawValues", "ZScoreValues"):
+            if keys in p and vals in p:
+                raws, out_r, out_v = p[keys], [], []
+                for i, r in enumerate(raws):
+                    if not any(r == x for x in out_r) and i < len(p[vals]):
+                        out_r.append(r)
+                        out_v.append(p[vals][i])
+                if not out_r and keys == "ZScoreValues" or (not out_r and cmd.endswith("Curve")):
+                    out_r, out_v = [0], [0]
+                p[keys], p[vals] = out_r, out_v
+    if "TrueThreshold" in p and "FalseThreshold" in p and p["TrueThreshold"] == p["FalseThreshold"]:
+        p["FalseThreshold"] = p["TrueThreshold"] - 1.5
+    return p
+
+
 @st.composite
-def typed_models(draw, max_nodes=10, cmds=None, with_meta=True):
+def typed_models(draw, max_nodes=10, cmds=None, with_meta=True, clean=False):
     cmds = list(cmds or R.ALL)
     table = draw(tables())
     nodes = []
@@ -84,6 +103,8 @@ def typed_models(draw, max_nodes=10, cmds=None, with_meta=True):
                 params["TruestOrFalsest"] = "Truest"
         if params.get("Direction") not in (None, "LowToHigh", "HighToLow"):
             params["Direction"] = "HighToLow"
+        if clean:
+            params = sanitize_params(cmd, params)
         node = {"name": "N%d" % k, "cmd": cmd, "inputs": inputs, "params": params}
         if with_meta and draw(st.integers(0, 3)) == 0:
             node["meta"] = {"DisplayName": "node %d" % k, "Color": draw(st.sampled_from(["Blue", "dark red", "x"]))}
